@@ -475,6 +475,36 @@ class Interp:
                 out.append(self.eval(n.elt, cenv))
         return out
 
+    def e_GeneratorExp(self, n, env):
+        """A lazy native generator over the interpreted element expression.  PEP 479: a StopIteration raised while the
+        generator frame is running reaches the consumer as RuntimeError('generator raised StopIteration')."""
+        if len(n.generators) != 1:
+            raise Unsupported("nested generator expression")
+        g = n.generators[0]
+        items = self.iterate(self.eval(g.iter, env))     # the outermost iterable is evaluated eagerly (as in Python)
+        interp = self
+
+        def gen():
+            cenv = Env(env)
+            for item in items:
+                try:
+                    interp.assign(g.target, item, cenv)
+                    if all(interp.truth(interp.eval(c, cenv)) for c in g.ifs):
+                        value = interp.eval(n.elt, cenv)
+                    else:
+                        continue
+                except PyExc as pe:
+                    if interp.native:
+                        if isinstance(pe.exc, StopIteration):
+                            raise PyExc(RuntimeError("generator raised StopIteration"))
+                        raise
+                    from .domain import ExcClass
+                    if interp.dom.exc_isinstance(pe.exc, ExcClass("StopIteration")):
+                        raise PyExc(interp.dom.make_exc("RuntimeError", ("generator raised StopIteration",)))
+                    raise
+                yield value
+        return gen()
+
     def e_Slice(self, n, env):
         return self.eval_index(n, env)
 
